@@ -1,6 +1,7 @@
 import S2T.Drv.Util
 import S2T.Model.Loops
 import S2T.Model.Limits
+import S2T.Model.ArchiveChain
 import S2T.Model.Amplify
 import S2T.Gen.C12Consts
 import S2T.Model.XmlEntities
@@ -241,6 +242,46 @@ def handle (op : String) (j : Json) : Option (Except String Json) :=
       let accept := acceptOfTable S2T.Gen.C12Consts.tarGuardAccepts
       let sizeFirst := eventBefore S2T.Gen.C12Consts.tarLoopEvents "size-test" "read"
       return Json.mkObj [("delivered", jNats (tarLoopDelivered o accept sizeFirst lim ms)), ("payload", jN (tarPayload ms))]
+  | "c12.named_loop" => some do
+      let o ← genOps
+      let k ← getStr j "kind"
+      let (kind, rb) ← match k with
+        | "zip" => pure (Kind.zip, S2T.ArcChain.ReadBy.ofString S2T.Gen.C12Consts.zipReadBy)
+        | "tar" => pure (Kind.tar, S2T.ArcChain.ReadBy.ofString S2T.Gen.C12Consts.tarReadBy)
+        | _ => throw "kind"
+      let lim ← getNat j "limit"
+      let a ← getArr j "entries"
+      let es ← a.toList.mapM (fun e => do
+        let nm ← getNat e "name"
+        let d ← getNat e "declared"
+        let dl ← getNat e "delivers"
+        return (⟨nm, d, dl⟩ : S2T.ArcChain.Entry))
+      return Json.mkObj [("delivered", jNats (S2T.ArcChain.loopDelivered o kind rb lim es)), ("payload", jN (S2T.ArcChain.payload es)),
+                         ("by_name", jNats (S2T.ArcChain.loopDelivered o kind .name lim es))]
+  | "c12.sz_read_back" => some do
+      let o ← genOps
+      let lim ← getNat j "limit"
+      let a ← getArr j "entries"
+      let es ← a.toList.mapM (fun e => do
+        let nm ← getNat e "name"
+        let d ← getNat e "declared"
+        return (⟨nm, d, d⟩ : S2T.ArcChain.Entry))
+      return Json.mkObj [("read_back", jNats (S2T.ArcChain.readBack o lim es))]
+  | "c12.sz_chain" => some do
+      let a ← getArr j "stages"
+      let stages ← a.toList.mapM (fun s => do
+        let k ← getStr s "kind"
+        match k with
+        | "decoder" => do return S2T.ArcChain.Stage.decoder (← getNat s "real")
+        | "filter" => pure S2T.ArcChain.Stage.filter
+        | "unsupported" => pure S2T.ArcChain.Stage.unsupported
+        | _ => throw s!"unknown stage kind {k}")
+      let packed ← getNat j "packed"
+      let m ← match j.getObjVal? "max_output" with
+        | .ok .null => pure none
+        | .ok v => (some <$> v.getNat?)
+        | .error _ => pure none
+      return Json.mkObj [("outputs", jNats (S2T.ArcChain.chainOutputs (S2T.ArcChain.Policy.ofSites S2T.Gen.C12Consts.szStageBoundSites) m stages packed))]
   | "c12.text_s" => some do
       let a ← getArr j "inlines"
       let p ← a.toList.mapM (fun i => match i.getObjValAs? String "digits" with
